@@ -192,3 +192,9 @@ def run(report: core.Report):
     check_python(report)
     check_wiring(report, lib)
     check_ops_client(report, lib)
+    # the types named in the from_gapic(...) wrap must be imported by the client module: they come from Method._ref_types
+    r5 = report.rule("C08.5", "the client modules import the LRO response / metadata (and extended-operation) types that the wrap names: "
+                              "Method._ref_types appends them under `self.lro` / `self.extended_lro` on the flat and the recursive path", floor=4)
+    from .common_rules import ref_types_inclusions
+    ref_types_inclusions(r5, {"self.lro.response_type": "self.lro", "self.lro.metadata_type": "self.lro",
+                              "self.extended_lro.request_type": "self.extended_lro", "self.extended_lro.operation_type": "self.extended_lro"})
